@@ -568,6 +568,10 @@ func addSyscall(rule *ruleData, syscall string) error {
 		}
 	}
 
+	if syscallNum < 0 || syscallNum >= syscallBitmaskSize*32 {
+		return fmt.Errorf("invalid syscall number %v", syscallNum)
+	}
+
 	rule.syscalls = append(rule.syscalls, uint32(syscallNum))
 	return nil
 }
